@@ -61,3 +61,25 @@ Example nv_complete :
   pc s = PIdle /\ todo s = [] /\ in_window true s = false /\ length (bufs s) = 2 /\ length (file s) = 80 /\ shl s = [0]
   /\ match_recs (eager [] nv_ops) (file (finish s)) = true.
 Proof. vm_compute. repeat split; reflexivity. Qed.
+
+(* non-vacuity of the schedules with a closed pipe / mtd_dtor (finish trigger, signal trigger, thread end):
+   (1) finish trigger after three records: the thread is done, later producer steps change nothing, the
+       file holds exactly the three records although five were to be written;
+   (2) another thread closed the pipe: the thread fills its buffer, REC_END of the switch is lost, it goes
+       dark; the buffer that was current is still flushed at the end;
+   (3) a normal thread end sends REC_END: the recorder's ordinary catch-up writes everything *)
+Definition fin_recs : list rec := [w_r2; w_r1; w_r2; w_r2; w_r2].
+Example nv_finish_trigger :
+  let s := run true 48 (repeat LP 21 ++ [LDC] ++ repeat LP 20) (init fin_recs) in
+  pc s = PDark /\ done s = [w_r2; w_r1; w_r2] /\ match_recs (done s) (file (finish s)) = true
+  /\ length (file (finish s)) = 56.
+Proof. vm_compute. repeat split; reflexivity. Qed.
+Example nv_pipe_closed :
+  let s := run true 48 (repeat LP 9 ++ repeat LPC 30) (init fin_recs) in
+  pc s = PDark /\ done s = [w_r2; w_r1] /\ chan s = [MStart 0] /\ match_recs (done s) (file (finish s)) = true
+  /\ length (file (finish s)) = 40.
+Proof. vm_compute. repeat split; reflexivity. Qed.
+Example nv_thread_end :
+  let s := run true 4080 (repeat LP 30 ++ [LD; LR; LR; LW]) (init fin_recs) in
+  pc s = PDark /\ done s = fin_recs /\ shl s = [] /\ wl s = [] /\ match_recs fin_recs (file s) = true.
+Proof. vm_compute. repeat split; reflexivity. Qed.
